@@ -1,4 +1,4 @@
-import GV.Model.Header
+import GV.Model.Streamer
 import GV.Expect.C17
 /-
   C17 — the validity gate.  Property theorems only (DESIGN §7 C17).
@@ -28,6 +28,42 @@ theorem C17_isvalid_iff (ev : Bytes) (h : ev.length < 2 ^ 32) :
       rw [this, he]
       have : ¬ ev.length < 19 := h19
       simp [this]
+
+/-- header accessors never fail on accepted buffers -/
+theorem C17_accessors_total (ev : Bytes) (h : isValid ev = true) :
+    (∃ a, evTimestamp ev = .ok a) ∧ (∃ a, evType ev = .ok a) ∧ (∃ a, evServerID ev = .ok a) ∧
+    (∃ a, evLength ev = .ok a) ∧ (∃ a, evNextPosition ev = .ok a) ∧ (∃ a, evFlags ev = .ok a) := by
+  have h19 : 19 ≤ ev.length := by
+    unfold isValid at h
+    by_cases hl : ev.length < 19
+    · simp [hl] at h
+    · omega
+  have hget : ∃ x, ev[4]? = some x := by
+    have : 4 < ev.length := by omega
+    exact ⟨ev[4], by simp [this]⟩
+  obtain ⟨x, hx⟩ := hget
+  refine ⟨?_, ?_, ?_, ?_, ?_, ?_⟩
+  · exact ⟨Bytes.le (ev.take 4), by simp [evTimestamp, Bytes.sliceTo, show 4 ≤ ev.length by omega]⟩
+  · exact ⟨x.toNat, by simp [evType, Bytes.get, hx]⟩
+  · exact ⟨Bytes.le ((ev.drop 5).take 4), by simp [evServerID, readLE, Bytes.slice, show 5 + 4 ≤ ev.length by omega]⟩
+  · exact ⟨Bytes.le ((ev.drop 9).take 4), by simp [evLength, readLE, Bytes.slice, show 9 + 4 ≤ ev.length by omega]⟩
+  · exact ⟨Bytes.le ((ev.drop 13).take 4), by simp [evNextPosition, readLE, Bytes.slice, show 13 + 4 ≤ ev.length by omega]⟩
+  · exact ⟨Bytes.le ((ev.drop 17).take 2), by simp [evFlags, readLE, Bytes.slice, show 17 + 2 ≤ ev.length by omega]⟩
+
+/-- the streamer applies the gate before touching the packet: whatever the parser state, a rejected buffer is
+    classified `invalid` without any accessor or decoder being evaluated on it -/
+theorem C17_gate_first (env : Env) (st : PState) (ev : Bytes) (h : isValid ev = false) :
+    classify env st ev = .invalid := by
+  unfold classify
+  simp [h]
+
+/-- a truncated, over-long or garbage packet ends the stream with an error, without a panic, without delivering
+    anything from that point on, and with the resume position still the one held before the packet (the last
+    accepted commit boundary, by C04_resume_pos) — at any point of any stream, whatever follows -/
+theorem C17_invalid_stops (env : Env) (handler : Transaction → Bool) (st : PState) (ev : Bytes) (rest : List Input)
+    (h : isValid ev = false) :
+    parseEvents env handler st (.event ev :: rest) = ⟨[], [], st.pos, true, false⟩ := by
+  simp [parseEvents, stepEvent, C17_gate_first env st ev h, stepD]
 
 /-- non-vacuity: a 19-byte event whose length field is 19 is accepted, a truncated one is not -/
 example : isValid ([0,0,0,0, 16, 1,0,0,0, 19,0,0,0, 23,0,0,0, 0,0]) = true := by decide
